@@ -100,3 +100,14 @@ Theorem C09_every_override_is_needed :
                   is' <> idxs ++ unused tbl p idxs.
 Proof. exact @strip_differs. Qed.
 Print Assumptions C09_every_override_is_needed.
+
+(* Tie of the table decoder to the current source, for ALL tables, indices and key equalities: Gen/SrcTables.v is
+   ToArgs.found_index as re-translated from code_data/_blocks.py on every run (the rank is the number of indices seen so
+   far, a key met at a second index becomes a duplicate key, an override is recorded when the rank differs from the index or
+   the key is a duplicate; the dict / set fields and their per-instance defaults are checked); it is the model's found_index,
+   and the rank it reads back is always present.  The theorems above are therefore about the rule the source applies now. *)
+From PCD Require Model.TableOps Gen.SrcTables Proofs.SrcTablesTie.
+Theorem C09_found_index_is_the_source : forall {T} (keq : T -> T -> bool) (st : toargs T) index,
+  PCD.Gen.SrcTables.found_index keq st index = found_index keq st index.
+Proof. intros. apply SrcTablesTie.found_index_tie. Qed.
+Print Assumptions C09_found_index_is_the_source.
